@@ -2523,7 +2523,7 @@ Proof.
   - apply dead_after_blk. eapply dictcomp_dead; eassumption.
 Qed.
 
-(* the rule as it was before 7f19a3d: key and value both call *)
+(* the rule as it was before 9a002ae: key and value both call *)
 Definition site_dictcomp_old (s1 s2 : st) : option st :=
   match s1, loop_shape s2 with
   | SAssign x (XDict []), Some (cl, SSetItem x' k v) =>
